@@ -222,6 +222,9 @@ outer:
 				sort.Slice(ats, func(i, j int) bool { return ats[i] < ats[j] })
 				ats = reachable(ats)
 				pan = bubble(t, func() {
+					if len(ats) > 0 && ats[0]-time.Now().UnixNano() > int64(time.Second) {
+						time.Sleep(850 * time.Millisecond) // the server (and its handler) starts at no whole second
+					}
 					w, err := newWorld(b.Realm, handler(b.Kind, b.Secret))
 					if err != nil {
 						r.Violate(rep.Violation{Oracle: "harness", Signature: "harness:newserver", Detail: err.Error(), Replay: ec})
